@@ -351,6 +351,14 @@ Theorem c12_rawjson_recv_grammar : forall st s r st' rest,
 Proof. exact rawjson_recv_grammar. Qed.
 Print Assumptions c12_rawjson_recv_grammar.
 
+(* completeness against that grammar: every value of it that is not a number - object, array,
+   string, true, false, null - is returned by Recv whatever follows it (null as the empty record) *)
+Theorem c12_rawjson_complete : forall r rest,
+  Json.tight_at 0 r = true -> nonnum r ->
+  RawJson.recv None (r ++ rest) = Ok (if is_null r then [] else r) None rest.
+Proof. exact rawjson_complete. Qed.
+Print Assumptions c12_rawjson_complete.
+
 (* ---- the server and a final record delivered together with io.EOF ---- *)
 
 (* SrvModel handles [FMsgEOF i] (record returned WITH io.EOF) exactly like [FMsg i] wherever it
